@@ -558,6 +558,10 @@ MUTANTS = [
     Mutant('inf-branch-nan-value', SPECIAL, "        for atom, test, pair in ((ValueClass.INF, IsInf, src.inf),\n                                 (ValueClass.NAN, IsNan, src.nan)):", "        for atom, test, pair in ((ValueClass.INF, IsInf, src.nan),\n                                 (ValueClass.NAN, IsNan, src.inf)):", 'C10.T2'),
     Mutant('sign-choice-swapped', UTILS, "        value_literal(neg, loc), value_literal(pos, loc), loc,", "        value_literal(pos, loc), value_literal(neg, loc), loc,", 'C10.T2'),
     Mutant('zero-probe-is-one', SPECIAL, "    zero = _special_pair(ctx, Float(c=0))", "    zero = _special_pair(ctx, Float(c=1))", 'C10.T2'),
+    Mutant('elim-chain-tail-unmasked', RELIM, "            self._visit_expr(arg, ctx if i < 2 else None)\n            for i, arg in enumerate(e.args)", "            self._visit_expr(arg, ctx)\n            for i, arg in enumerate(e.args)", 'C10.S1',
+           'finding F42 before its repair (RoundElim)'),
+    Mutant('insert-chain-tail-unmasked', RINS, "            self._visit_expr(arg, ctx if i < 2 else None)\n            for i, arg in enumerate(e.args)", "            self._visit_expr(arg, ctx)\n            for i, arg in enumerate(e.args)", 'C10.S1',
+           'finding F42 before its repair (RoundInsert)'),
     Mutant('elim-boolop-tail-unmasked', RELIM, "            rest = [self._visit_expr(arg, None) for arg in e.args[1:]]", "            rest = [self._visit_expr(arg, ctx) for arg in e.args[1:]]", 'C10.S1', 'the defect repaired by the fix: commit'),
     Mutant('insert-while-unmasked', RINS, "    def _visit_while(self, stmt: WhileStmt, ctx: Any):\n        return super()._visit_while(stmt, None)[0], ctx", "    def _visit_while(self, stmt: WhileStmt, ctx: Any):\n        return super()._visit_while(stmt, ctx)[0], ctx", 'C10.S1'),
     Mutant('wrapper-bypasses-edits', STRATS + 'overflow_unfold.py', "func.with_edits(UnfoldOverflow.apply_with_edits(", "func.with_ast(UnfoldOverflow.apply(", 'C10.P1'),
